@@ -156,9 +156,11 @@ impl<Meta> Archive<Meta> {
 
         // Step 1. Go over each index bucket and collect all the objects.
         // Check that the name hashes correctly.
+        let mut guard = ChainGuard::new(&self.file);
         for idx in 0.. usize_to_u64(self.meta.bucket_count) {
             let mut start = self.get_index(idx)?;
             while let Some(pos) = start {
+                guard.step()?;
                 let (header, name) = ObjectHeader::read_with_name(
                     &self.file, pos.into()
                 )?;
@@ -178,6 +180,7 @@ impl<Meta> Archive<Meta> {
         // Step 2. Go over the empty space.
         let mut start = self.get_empty_index()?;
         while let Some(pos) = start {
+            guard.step()?;
             let header = ObjectHeader::read(&self.file, pos.into())?;
             objects.push((u64::from(pos), header.size));
             stats.empty_count += 1;
@@ -482,7 +485,9 @@ impl<Meta: ObjectMeta> Archive<Meta> {
         }
 
         // We are further down the chain.
+        let mut guard = ChainGuard::new(&self.file);
         while let Some(pos) = curr {
+            guard.step()?;
             let header = ObjectHeader::read(&self.file, pos.into())?;
             if header.next == start {
                 ObjectHeader::update_next(pos.into(), next, &mut self.file)?;
@@ -501,7 +506,9 @@ impl<Meta: ObjectMeta> Archive<Meta> {
     ) -> Result<Option<FoundObject>, ArchiveError> {
         let mut start = self.get_index(hash)?;
         let mut prev = None;
+        let mut guard = ChainGuard::new(&self.file);
         while let Some(pos) = start {
+            guard.step()?;
             let (header, object_name) = ObjectHeader::read_with_name(
                 &self.file, pos.into()
             )?;
@@ -531,7 +538,9 @@ impl<Meta: ObjectMeta> Archive<Meta> {
         }
         let size = Self::page_object_size(name, data);
         let mut candidates = Vec::new();
+        let mut guard = ChainGuard::new(&self.file);
         while let Some(pos) = start {
+            guard.step()?;
             let header = ObjectHeader::read(&self.file, pos.into())?;
             start = header.next;
             if Self::fits(header.size, size) {
@@ -798,6 +807,36 @@ impl<Meta: ObjectMeta> AppendArchive<Meta> {
 
 //------------ ObjectsIter ---------------------------------------------------
 
+/// A guard against cycles in the object chains of a broken archive.
+///
+/// The objects of all chains taken together cannot be more than fit into
+/// the file. A walk along `next` pointers that takes more steps than that
+/// has run into a cycle.
+#[derive(Clone, Copy, Debug)]
+struct ChainGuard {
+    /// The number of steps left.
+    left: u64,
+}
+
+impl ChainGuard {
+    /// Creates a new guard for walking chains in the given storage.
+    fn new(file: &Storage) -> Self {
+        Self { left: file.size / ObjectHeader::SIZE + 1 }
+    }
+
+    /// Accounts for a step along a chain.
+    fn step(&mut self) -> Result<(), ArchiveError> {
+        match self.left.checked_sub(1) {
+            Some(left) => {
+                self.left = left;
+                Ok(())
+            }
+            None => Err(ArchiveError::Corrupt("cycle in object chain"))
+        }
+    }
+}
+
+
 /// An iterator over the objects in an archive.
 ///
 /// The iterator returns tuples of name, meta, and content. It can be
@@ -811,6 +850,9 @@ pub struct ObjectsIter<'a, Meta> {
 
     /// The next item in the currently visited bucket.
     next: Option<NonZeroU64>,
+
+    /// The guard against cycles in the bucket chains.
+    guard: ChainGuard,
 }
 
 impl<'a, Meta> ObjectsIter<'a, Meta> {
@@ -820,6 +862,7 @@ impl<'a, Meta> ObjectsIter<'a, Meta> {
             archive,
             buckets: 1..usize_to_u64(archive.meta.bucket_count),
             next: archive.get_index(0)?,
+            guard: ChainGuard::new(&archive.file),
         })
     }
 }
@@ -835,6 +878,7 @@ impl<'a, Meta: ObjectMeta> ObjectsIter<'a, Meta> {
     ) -> Result<Option<(Cow<'a, [u8]>, Meta, Cow<'a, [u8]>)>, ArchiveError> {
         loop {
             if let Some(pos) = self.next {
+                self.guard.step()?;
                 let (next, res) = self.archive.file.read(pos.into(), |read| {
                     let header = ObjectHeader::read_from(read)?;
                     let name = read.read_slice(header.name_len)?;
